@@ -15,6 +15,7 @@ MUTANTS = {
     },
     "C08": {
         "d3_reverted": [("_core.py", "        self.out_delay_queue.async_remove_records(withdrawn)\n", "")],
+        "d15_reverted": [("_core.py", "            if ttl is None and self.registry.async_get_info_name(info.key) is not info:", "            if False:")],
         "goodbye_twice": [("_core.py", "        for i in range(_REGISTER_BROADCASTS):\n            if i != 0:\n                await asyncio.sleep(millis_to_seconds(interval))",
                            "        for i in range(_REGISTER_BROADCASTS if ttl != 0 else 2):\n            if i != 0:\n                await asyncio.sleep(millis_to_seconds(interval))")],
         "broadcast_addresses_inverted": [("_core.py", "broadcast_addresses = not bool(entries)", "broadcast_addresses = bool(entries)")],
